@@ -26,7 +26,7 @@ def c14(tier):
     t0 = time.time()
     pid = "C14"
     verdict = common.Verdict(pid)
-    progs, total = checks_refine.sample_programs(tier, fams=["F5a", "F5b", "F5c", "F5d", "F5f", "F6"], name="c14", scale=1.5, quota={"F6": 600, "F5d": None, "F5f": None})
+    progs, total = checks_refine.sample_programs(tier, fams=["F5a", "F5b", "F5c", "F5d", "F5f", "F5h", "F6"], name="c14", scale=1.5, quota={"F6": 600, "F5d": None, "F5f": None, "F5h": None})
     cases, bodies = [], {}
     for i, p in enumerate(progs):
         used = vocab.closure(sorted(render.calls_in(p["body"])))
@@ -503,21 +503,18 @@ def c11(tier):
     # ---- Layer 2: CppScan.tla (the comment / string scanner of cpp::process as coded): model-checked against the textbook scanner on every
     # text within the bound, bound to the real preprocessor by replay; the real output is also judged against the textbook result
     from . import cppscan
-    if tier == "quick":
-        sres, sconfs, sdrift, stext, _sl = cppscan.run(tier, "c11", 6, 4, 53, 14000)
-    else:
-        sres, sconfs, sdrift, stext, _sl = cppscan.run(tier, "c11", 7, 5, 23, 200000)
+    sdistinct, snconfs, sdrift, stext, _sl = cppscan.run_both(tier, "c11")
     if sdrift:
-        print("[vf] NOTE: cpp::process no longer behaves like CppScan.tla on %d of %d replayed texts (model drift), e.g. %s" % (len(sdrift), len(sconfs), json.dumps(sdrift[0])[:400]))
+        print("[vf] NOTE: cpp::process no longer behaves like CppScan.tla on %d of %d replayed texts (model drift), e.g. %s" % (len(sdrift), snconfs, json.dumps(sdrift[0])[:400]))
     for v in stext:
         verdict.violation("comment / layout scanner: %r is emitted as %r, the textbook scanner gives %r" % (v["text"], v["emitted"], v["textbook"]),
                           dict(property=pid, layer="CppScan", text=v["text"], emitted=v["emitted"], textbook=v["textbook"]))
-    layer2 = dict(texts_model_checked=sres.distinct, max_characters=6 if tier == "quick" else 7, invariants=["TextReq", "LitReq", "CommentReq", "LinesReq"],
+    layer2 = dict(texts_model_checked=sdistinct, max_characters=6 if tier == "quick" else 7, max_pieces=4 if tier == "quick" else 5, invariants=["TextReq", "LitReq", "CommentReq", "LinesReq"],
                   deviation_classes_excluded=["HasQuoteInChar", "HasLongEscape", "HasSpliceCascade"],
-                  texts_replayed_into_cpp_process=len(sconfs), model_conformant=(len(sdrift) == 0), first_drift=(sdrift[0] if sdrift else None), drifts=len(sdrift),
+                  texts_replayed_into_cpp_process=snconfs, model_conformant=(len(sdrift) == 0), first_drift=(sdrift[0] if sdrift else None), drifts=len(sdrift),
                   real_output_differs_from_textbook=len(stext))
-    states += sres.distinct
-    cov = dict(states=states, transitions=res.generated, traces_validated_against_impl=same + differ_text + len(sconfs), layer2_CppScan=layer2,
+    states += sdistinct
+    cov = dict(states=states, transitions=res.generated, traces_validated_against_impl=same + differ_text + snconfs, layer2_CppScan=layer2,
                samples=[dict(decoration=c["_deco"], decorated=c["_dec"]) for c in cases[5:8]],
                corpus_programs=len(corpus), decorated_programs=len(cases), comparisons_textually_equal=same, comparisons_decided_by_execution=differ_text,
                decorations=sorted(DECO_TEXT), attributed_to_known_findings=verdict.known, exhaustive=False,
